@@ -194,13 +194,13 @@ impl<R> BinaryReader<R> {
     #[verifier::external_body]
     pub fn stream_position(&mut self) -> (r: Result<u64>)
         requires old(self)@.wf(),
-        ensures final(self)@ == old(self)@, r.is_ok() ==> r.unwrap() == old(self)@.pos,
+        ensures final(self)@ == old(self)@, r.is_ok(), r.unwrap() == old(self)@.pos,
     { unimplemented!() }
 
     #[verifier::external_body]
     pub fn len(&mut self) -> (r: Result<u64>)
         requires old(self)@.wf(),
-        ensures final(self)@ == old(self)@, r.is_ok() ==> r.unwrap() == old(self)@.bytes.len(),
+        ensures final(self)@ == old(self)@, r.is_ok(), r.unwrap() == old(self)@.bytes.len(),
     { unimplemented!() }
 
     #[verifier::external_body]
